@@ -23,7 +23,10 @@ func H_C15_compose() {
 	names := []string{"s0", "s1", "s2"}
 	contents := []string{"a", "bc", ""}
 	for i, n := range names {
-		vPut(g, "b", n, []byte(contents[i]))
+		// request bodies read with io.ReadAll have spare capacity: keep that property
+		buf := make([]byte, len(contents[i]), len(contents[i])+8)
+		copy(buf, contents[i])
+		vPut(g, "b", n, buf)
 	}
 	// source list: length 0,1,2,3,32,33 with repeats; optionally a missing source; destination may be a source
 	nsrc := []int{0, 1, 2, 3, 32, 33}[vChoice("nsources", 0, 5)]
@@ -94,6 +97,23 @@ func H_C15_compose() {
 		unchanged(dst)
 		if o := w.object(); o != nil {
 			vAssert(o.Size == uint64(len(want)), "compose:response-size")
+		}
+		// a later compose with the same first source must not disturb this destination
+		if dst == "dst" && nsrc >= 2 && nsrc <= 3 {
+			w2 := vNewRecorder()
+			r2 := &http.Request{Body: &vBody{decode: func(v interface{}) error {
+				req := v.(*storage.ComposeRequest)
+				req.Destination = &storage.Object{}
+				req.SourceObjects = []*storage.ComposeRequestSourceObjects{{Name: srcs[0].Name}, {Name: "s1"}, {Name: "s1"}}
+				return nil
+			}}}
+			g.handleGcsCompose(vCtx(), dontNeedUrls, w2, r2, "b", "dst2/compose", emptyConds)
+			vAssert(w2.code == http.StatusOK, "compose:second-ok")
+			d2 := vSnap(g, "b", dst)
+			vAssert(string(d2.content) == want, "compose:earlier-destination-untouched-by-a-later-compose")
+			for i, n := range []string{"s0", "s1", "s2"} {
+				vAssert(vSameState(before[i], vSnap(g, "b", n)), "compose:sources-untouched-after-two-composes")
+			}
 		}
 		vReach("c15-compose-ok")
 	}
